@@ -2,7 +2,7 @@
 import ast
 
 from ..core import Mutant, norm
-from ..astutil import unparse, method_call, parent, keytext
+from ..astutil import unparse, method_call, parent, keytext, flat
 from ..index import dotted, walk_local
 
 EXPLANATION = ("C29: containment sanitizer: name/base flow into the path argument of every filesystem sink of Filer.remake "
@@ -21,10 +21,10 @@ def containment_guard(f):
     found = None
     first_sink = min([n.lineno for n in walk_local(f.node) if isinstance(n, ast.Call) and (dotted(n.func) in SINKS or dotted(n.func) == "tempfile.mkdtemp")] or [10 ** 9])
     defs = {}
-    for st in f.node.body:
+    for st in flat(f.node.body):
         if isinstance(st, ast.Assign) and isinstance(st.targets[0], ast.Name):
             defs[st.targets[0].id] = st.value
-    for st in f.node.body:
+    for st in flat(f.node.body):
         if not (isinstance(st, ast.If) and st.body and isinstance(st.body[-1], ast.Raise)) or st.lineno > first_sink:
             continue
         t = unparse(st.test)
